@@ -60,6 +60,7 @@ func DataFromSx(s Sx) []byte {
 
 // BodyFromSx builds the Go body value of a body descriptor:
 // (0) nil | (1 #b) []byte | (2 #b) string | (3 z) int64 | (4 bits) float64 | (5 seed len mask) []byte
+// | (7) []byte(nil) | (8) ""
 func BodyFromSx(s Sx) interface{} {
 	switch s.At(0).Int64() {
 	case 0:
@@ -74,6 +75,10 @@ func BodyFromSx(s Sx) interface{} {
 		return math.Float64frombits(s.At(1).Uint64())
 	case 5:
 		return DataFromSx(s)
+	case 7:
+		return []byte(nil) // a typed nil: not the nil interface
+	case 8:
+		return ""
 	}
 	panic("c01lib: bad body descriptor " + s.String())
 }
